@@ -443,6 +443,7 @@ pub fn family(name: &str, _tier: Tier) -> Vec<Prog> {
         "shapes/diamond" => diamond_shapes(),
         "shapes/pending" => pending_shapes(),
         "shapes/bindvars" => bindvar_shapes(),
+        "shapes/readopt" => readopt_shapes(),
         // node creation interleaved with everything else (C01 "create node"): the derived nodes do not exist when the
         // history starts and appear one by one through `CreateNext` -- either all of them, or only the last one (a new
         // dependant of nodes that have long been computed); sinks observable, one observer at a time
@@ -973,6 +974,51 @@ pub fn nested_shapes() -> Vec<Prog> {
         // inner bind whose input is a map over the outer bind's input
         mk(vec![var(0), var(2), map(F1::Half, 0), bind(0, nb(2, F(1), F(1)), nb(2, F(1), E(1)))], 3),
     ]
+}
+
+/// An existing, already computed node (a fold, a map2, a map_with_old, an expert node ...) that one bind lets go of and
+/// another bind, running later in the same stabilise, picks up again: it becomes unnecessary and necessary again within one
+/// round, after it has been recomputed in that round (after seed C02-g: whatever "forget on release" bookkeeping a kind
+/// has must not make it run twice).
+///   0:k 1:a 2:b 3:X(a,b) 4:const 5:par(a) 6:sel=mix(5,k) 7:b1=bind(sel, const | X) 8:mix(b1,a) 9:b2=bind(8, X | const)
+/// The first bind's selector depends on `a` through two levels, so its lhs-change node runs after X (height 1) has been
+/// recomputed for the new `a`; the second bind's selector is above the first bind.
+pub fn readopt_shapes() -> Vec<Prog> {
+    use Rhs::*;
+    let k = |c: i32| n(Recipe::Const(c));
+    let kinds: Vec<NodeSpec> = vec![
+        n(Recipe::Fold(vec![1, 2])),
+        map2(F2::Mix, 1, 2),
+        n(Recipe::MapN(vec![1, 2, 1])),
+        n(Recipe::MapWithOld(1)),
+        n(Recipe::Xp(1)),
+        n(Recipe::Zip(1, 2)),
+    ];
+    let mut out = vec![];
+    for x in kinds {
+        for (flip1, flip2) in [(false, false), (false, true), (true, false), (true, true)] {
+            let nodes = vec![
+                var(0),
+                var(1),
+                var(0),
+                x.clone(),
+                k(0),
+                map(F1::Par, 1),
+                map2(F2::Mix, 5, 0),
+                if flip1 { bind(6, E(3), E(4)) } else { bind(6, E(4), E(3)) },
+                map2(F2::Mix, 7, 1),
+                if flip2 { bind(8, E(4), E(3)) } else { bind(8, E(3), E(4)) },
+            ];
+            let mut p = Prog::new(nodes);
+            p.alpha.observable = vec![9, 7];
+            p.start_observed = vec![9, 7];
+            p.alpha.max_observers = 2;
+            p.alpha.values = vec![0, 1];
+            p.alpha.disallow = false;
+            out.push(p);
+        }
+    }
+    out
 }
 
 /// Bind closures that create a *variable* (`Rhs::FV`: `state.var` / `state.var_current_scope` of the captured value), drop
